@@ -6,6 +6,7 @@ import (
 	"go/constant"
 	"go/token"
 	"go/types"
+	"golang.org/x/tools/go/ssa"
 	"regexp"
 	"sort"
 	"strconv"
@@ -31,6 +32,7 @@ func init() {
 			{ID: "C17.R2", Doc: "RPCGoString is the only producer of RPC names and is what client stubs and the description emit", Run: c17r2},
 			{ID: "C17.R4", Doc: "the four generated method shapes, pushed through the mux's extracted switch, agree with the receiver closure and HandleRPC", Run: c17r4},
 			{ID: "C17.R5", Doc: "identifier helpers that join two descriptor names with '_' escape '_' in both parts (injective mangling)", Run: c17r5},
+			{ID: "C17.R6", Doc: "plugin options (protolib, json) are read only inside the Run callback, through the variables the flags are bound to: no copy is taken before the parameters are parsed", Run: c17r6},
 			{ID: "C17.R3", Doc: "checked-in generated files: NumMethods == number of cases; client and description RPC constants agree", Run: c17r3, Tier: "thorough", Scope: "sub:internal/integration"},
 		},
 	})
@@ -793,4 +795,65 @@ func c17r5(c *an.Ctx) {
 		}
 	}
 	c.Floor("helpers joining service and method names", 1, n)
+}
+
+// c17r6: protogen parses the plugin parameter string (ParamFunc: flags.Set) inside Options.Run, before it
+// calls the generator callback. A value of a flag-bound variable that main copies before calling Run (a
+// local, a by-value closure binding, a bound method value with a value receiver) is the flag's default,
+// so `protolib=` and `json=` would be silently ignored and the generated code would use the wrong codec.
+func c17r6(c *an.Ctx) {
+	mainFn := c.Fn(c.P.ModPath+"/cmd/protoc-gen-go-drpc", "main")
+	// variables whose fields (or themselves) are handed to flag.*Var
+	bound := map[*ssa.Alloc]bool{}
+	an.Instrs(mainFn, func(in ssa.Instruction) {
+		call, ok := in.(*ssa.Call)
+		if !ok {
+			return
+		}
+		obj := an.CalleeObj(call.Common())
+		if obj == nil || obj.Pkg() == nil || obj.Pkg().Path() != "flag" || !strings.HasSuffix(obj.Name(), "Var") {
+			return
+		}
+		for _, arg := range call.Common().Args {
+			if al, ok := an.PathOf(arg).Root.(*ssa.Alloc); ok {
+				if _, isPtr := arg.Type().Underlying().(*types.Pointer); isPtr && al.Parent() == mainFn {
+					if fs, isNamed := deref(al.Type()).(*types.Named); isNamed && fs.Obj().Name() == "FlagSet" {
+						continue
+					}
+					bound[al] = true
+				}
+			}
+		}
+	})
+	if !c.Floor("flag-bound option variables in main", 1, len(bound)) {
+		return
+	}
+	n := 0
+	an.Instrs(mainFn, func(in ssa.Instruction) {
+		u, ok := in.(*ssa.UnOp)
+		if !ok || u.Op != token.MUL {
+			return
+		}
+		if al, ok := an.PathOf(u.X).Root.(*ssa.Alloc); ok && bound[al] {
+			n++
+			c.Bad("main | option variable "+al.Comment+" is read before Run has parsed the plugin parameters", c.At(in),
+				"main copies "+an.R(u)+" before protogen.Options.Run parses the parameter string: the generator would always see the flag defaults (protolib=..., json=... ignored)")
+		}
+	})
+	if n == 0 {
+		c.Ok("main | option variables are not read before Run", c.P.Pos(mainFn.Pos()), fmt.Sprintf("%d flag-bound variable(s); the callback captures them by reference", len(bound)))
+	}
+	// and Run is given a callback that can see them
+	nRun := 0
+	an.Instrs(mainFn, func(in ssa.Instruction) {
+		call, ok := in.(*ssa.Call)
+		if !ok {
+			return
+		}
+		if obj := an.CalleeObj(call.Common()); obj == nil || obj.Name() != "Run" || obj.Pkg() == nil || !strings.HasSuffix(obj.Pkg().Path(), "protogen") {
+			return
+		}
+		nRun++
+	})
+	c.Floor("protogen.Options.Run calls in main", 1, nRun)
 }
